@@ -73,9 +73,10 @@ def esc(s):
 
 def key_descriptor(name, use=None):
     u = ' use="%s"' % use if use else ''
+    # 'a|b' = one X509Data element holding two certificates (a certificate chain, leaf first)
+    certs = ''.join('<ds:X509Certificate>%s</ds:X509Certificate>' % cert_b64(n) for n in name.split('|'))
     return ('<md:KeyDescriptor%s><ds:KeyInfo xmlns:ds="http://www.w3.org/2000/09/xmldsig#"><ds:X509Data>'
-            '<ds:X509Certificate>%s</ds:X509Certificate></ds:X509Data></ds:KeyInfo></md:KeyDescriptor>'
-            % (u, cert_b64(name)))
+            '%s</ds:X509Data></ds:KeyInfo></md:KeyDescriptor>' % (u, certs))
 
 
 def idp_md(entity_id=IDP_A, keys=(('idpA', 'signing'),), sso=((SSO_A, BINDING_HTTP_REDIRECT),),
